@@ -29,16 +29,16 @@ KN4 == [props |-> {1, 2}, feedprops |-> {1}, rep |-> {3}, maxrep |-> 3, repEmp |
 KN4long == [props |-> {1, 2}, feedprops |-> {}, rep |-> {3}, maxrep |-> 5, repEmp |-> {FALSE}, once |-> {}, onceEmp |-> {FALSE},
             committers |-> {}, claims |-> {{}}, comEmp |-> {FALSE}, maxcom |-> 0]
 \* N=4, C=1: re-endorsing mixed with (repeated) commit messages that replace / claim the repeater's entries
-KN4com == [props |-> {1, 2}, feedprops |-> {1}, rep |-> {3}, maxrep |-> 2, repEmp |-> {FALSE}, once |-> {}, onceEmp |-> {FALSE},
+KN4com == [props |-> {1, 2}, feedprops |-> {}, rep |-> {3}, maxrep |-> 2, repEmp |-> {FALSE}, once |-> {}, onceEmp |-> {FALSE},
            committers |-> {3, 4}, claims |-> {{}, {3}}, comEmp |-> {FALSE}, maxcom |-> 2]
 \* N=7, C=2 (and N=6, N=8): one repeater among single-shot endorsers, proposal of 1
 KN7 == [props |-> {1, 2}, feedprops |-> {1}, rep |-> {3}, maxrep |-> 3, repEmp |-> {FALSE}, once |-> {4, 5}, onceEmp |-> {FALSE},
         committers |-> {}, claims |-> {{}}, comEmp |-> {FALSE}, maxcom |-> 0]
 \* thorough: two repeaters
-KN4two == [props |-> {1, 2}, feedprops |-> {1, 2}, rep |-> {3, 4}, maxrep |-> 3, repEmp |-> BOOLEAN, once |-> {}, onceEmp |-> {FALSE},
+KN4two == [props |-> {1, 2}, feedprops |-> {1}, rep |-> {3, 4}, maxrep |-> 3, repEmp |-> {FALSE}, once |-> {}, onceEmp |-> {FALSE},
            committers |-> {}, claims |-> {{}}, comEmp |-> {FALSE}, maxcom |-> 0]
-KN7two == [props |-> {1, 2}, feedprops |-> {1}, rep |-> {3, 4}, maxrep |-> 3, repEmp |-> {FALSE}, once |-> {5}, onceEmp |-> {FALSE},
-           committers |-> {5}, claims |-> {{}, {3}}, comEmp |-> BOOLEAN, maxcom |-> 1]
+KN7two == [props |-> {1, 2}, feedprops |-> {1}, rep |-> {3, 4}, maxrep |-> 3, repEmp |-> {FALSE}, once |-> {}, onceEmp |-> {FALSE},
+           committers |-> {5}, claims |-> {{}, {3}}, comEmp |-> {FALSE}, maxcom |-> 1]
 
 Msg(kind, p, e) == [k |-> kind, p |-> p, e |-> e]
 NEnd(i) == Cardinality({k \in 1..Len(sent[i]) : sent[i][k].k = "e"})
